@@ -1120,7 +1120,7 @@ PROPS = {
                     "C09History: reader_follows_pass, sit_step, run_conforming, run_documented, seek_when_documented, sit_after_header, sane_after_header, passAll_of_msgAt, offsets_grow; stream `seekhist`.",
     ),
     "C06": dict(
-        level="proof", module="Rsdns.Props.C06", modules=["Rsdns.Props.C06", "Rsdns.Props.C06Refines"],
+        level="proof", module="Rsdns.Props.C06", modules=["Rsdns.Props.C06", "Rsdns.Props.C06Refines", "Rsdns.Props.PinRRSet"],
         technique="Lean 4 refinement proof: RecordSet::<D>::from_msg EQUALS the CNAME-chain specification on every well-formed NOERROR response (rrset_refines), plus selection soundness over arbitrary bytes + independent CNAME-chain reference as ground truth on the real code",
         level_text="Proved (Props/C06Refines.lean, rrset_refines): for every well-formed response (MsgAt: any legal compression layout, any "
                    "letter case, any records in the three sections, any CNAME graph) with QR set, TC clear, one question and extended "
@@ -1144,7 +1144,7 @@ PROPS = {
                     "decoys in other sections/classes/types.",
     ),
     "C07": dict(
-        level="proof", module="Rsdns.Props.C07",
+        level="proof", module="Rsdns.Props.C07", modules=["Rsdns.Props.C07", "Rsdns.Props.PinRRSet"],
         technique="Lean 4 theorems over arbitrary bytes (gates of from_msg, specific errors, bit-level meaning of QR/TC/extended RCODE) + header-byte oracle",
         level_text="For ARBITRARY byte strings: from_msg = ok implies QR=1, TC=0, QDCOUNT=1 and extended RCODE=0 (theorem rrset_gates); "
                    "each violated gate yields its specific error with the offending value; QR/TC/RCODE getters are proved to be the RFC "
